@@ -291,7 +291,10 @@ def rule_flow_admit_sums(ctx):
                     skipped_dirty = any(v is True and isinstance(c, tuple) and 'is_dirty' in fmt(c) and any(x == res for x in subterms(c)) for c, v in _lo(p.conds))
                     if tag == 1 and not skipped_dirty:
                         hits.append((e, res))
-            pushes = [e for e in p.events if e[0] == 'call' and str(e[1]).endswith('::push')]
+            # recorded: pushed to a node list, or handed to the caller's visitor (an `FnMut(node)` parameter)
+            pushes = [e for e in p.events if e[0] == 'call' and (str(e[1]).endswith('::push') or
+                                                                  ((e[1] == 'callback' or str(e[1]).endswith(('::call_mut', '::call'))) and e[2] and
+                                                                   isinstance(e[2][0], tuple) and e[2][0] and e[2][0][0] == 'param'))]
             agg = row['agg']
             if agg is None:
                 raise CheckFailure('FLOW-admit-sums: victims accumulator not found in %s' % nid)
@@ -323,7 +326,10 @@ def rule_flow_admit_sums(ctx):
             if kind == 'unsync' and len(vic_pushes) != len(hits):
                 bad.append('%d victim(s) counted but %d recorded in the victim list' % (len(hits), len(vic_pushes)))
             if kind == 'sync':
-                nodes = [e for e in p.events if e[0] == 'call' and e[1] in R.succ]
+                # every node the scan LOOKS UP in the map is recorded, as a victim or as skipped (a pointer that was merely fetched before an
+                # exit test is not a scanned node)
+                nodes = [e for e in p.events if e[0] == 'call' and str(e[1]) in ('dashmap::DashMap::get', 'dashmap::DashMap::get_mut') and
+                         any(isinstance(x, tuple) and x and x[0] == 'call' and (x[1] in R.front or x[1] in R.succ) for a in e[2] for x in subterms(a))]
                 if len(vic_pushes) != len(nodes):
                     bad.append('%d node(s) scanned but %d recorded as victim or skipped' % (len(nodes), len(vic_pushes)))
             r.instance(function=nid, verdict=row['verdict'], victims_in_map=len(hits), freq_terms=len(fatoms), weight_terms=len(watoms), ok=not bad)
